@@ -109,6 +109,7 @@ type vSerKind struct {
 	holds   func(idx any, id uint32) bool // private state still mentions id
 	canon   func(idx any) string
 	train   func(idx any) error // trains an untrained index (nil for kinds that need no training)
+	retrain func(idx any) error // trains again, with another set (nil for kinds that do not train)
 	hnsw    bool
 	ef      int  // hnsw: efSearch (exactness regime limit)
 	textual bool // holds a BM25 index: flushing changes scores (not ids)
@@ -365,6 +366,20 @@ func vSerVecKind(cfg vVecCfg) *vSerKind {
 			nodes := make([]VectorNode, len(ts))
 			for i, v := range ts {
 				nodes[i] = *NewVectorNodeWithID(uint32(1000+i), vCopyVec(v))
+			}
+			return idx.(VectorIndex).Train(nodes)
+		},
+		retrain: func(idx any) error {
+			// a SECOND training, with another set (shifted and stretched): retraining a
+			// trained index is part of the API
+			ts := vTrainSet(cfg.Dim, 2-cfg.Train%2)
+			nodes := make([]VectorNode, len(ts))
+			for i, v := range ts {
+				w := vCopyVec(v)
+				for j := range w {
+					w[j] = w[j]*1.5 + 0.75
+				}
+				nodes[i] = *NewVectorNodeWithID(uint32(2000+i), w)
 			}
 			return idx.(VectorIndex).Train(nodes)
 		},
@@ -657,6 +672,11 @@ type vSerSys struct {
 	nAdd      int
 	maxN      int
 	contDepth int
+	// mid-history serialisations and retrainings (c07 mode): a WriteTo whose bytes are thrown
+	// away and a second Train are operations of the alphabet, so that "write, change, write"
+	// and "train, write, train, write" occur (the end-of-history round trip writes once)
+	written   bool
+	retrained bool
 }
 
 func (s *vSerSys) Reset() {
@@ -670,6 +690,7 @@ func (s *vSerSys) Reset() {
 	s.live = map[uint32]int{}
 	s.rem = map[uint32]bool{}
 	s.nAdd = 0
+	s.written, s.retrained = false, false
 	documentFilterPool.Reset()
 	minHeapPool.Reset()
 	maxHeapPool.Reset()
@@ -701,7 +722,19 @@ func (s *vSerSys) Enabled() []vOp {
 	if len(s.rem) > 0 {
 		ops = append(ops, vOp{K: "Flush"})
 	}
+	if s.mode == "c07" {
+		if !s.written {
+			ops = append(ops, vOp{K: "Write"})
+		}
+		if s.k.retrain != nil && !s.retrained && s.k.hasTrainable() {
+			ops = append(ops, vOp{K: "Retrain"})
+		}
+	}
 	return ops
+}
+
+func (k *vSerKind) hasTrainable() bool {
+	return strings.Contains(k.name, "kind=ivf") || strings.Contains(k.name, "kind=pq") || strings.Contains(k.name, "kind=ivfpq")
 }
 
 func (s *vSerSys) applyTo(idx any, op vOp) error {
@@ -712,6 +745,12 @@ func (s *vSerSys) applyTo(idx any, op vOp) error {
 		return s.k.remove(idx, uint32(op.A))
 	case "Flush":
 		return s.k.flush(idx)
+	case "Write":
+		var sink bytes.Buffer
+		_, err := s.k.write(idx, &sink)
+		return err
+	case "Retrain":
+		return s.k.retrain(idx)
 	}
 	return nil
 }
@@ -731,6 +770,14 @@ func (s *vSerSys) Apply(op vOp, hist []vOp, check bool) {
 			delete(s.live, uint32(op.A))
 			s.rem[uint32(op.A)] = true
 		}
+	case "Write":
+		s.written = true
+		if s.k.textual || true {
+			// WriteTo flushes: soft-deleted documents are gone from the source afterwards
+			s.rem = map[uint32]bool{}
+		}
+	case "Retrain":
+		s.retrained = true
 	}
 	if check {
 		h := vHistStrings(append(hist, op))
@@ -980,7 +1027,7 @@ func (s *vSerSys) prefixes(h []string) {
 }
 
 func (s *vSerSys) Key() string {
-	return s.k.name + "|" + s.k.canon(s.src)
+	return fmt.Sprintf("%s|%s|w%v|t%v", s.k.name, s.k.canon(s.src), s.written, s.retrained)
 }
 
 func vSerShards(mode, tier string) []vShard {
